@@ -91,7 +91,7 @@ class C06(Prop):
 
     def budget(self, tier):
         if tier == 'quick':
-            return {'runs': 260, 'wall_s': 75, 'per_run_timeout': 200,
+            return {'runs': 150, 'wall_s': 75, 'per_run_timeout': 200,
                     'shrink_s': 90, 'require_fired': ['sched.asm_order'],
                     'require_probes': ['twin.compared', 'clones.same_type'],
                     'min_evaluated': 40}
